@@ -5,6 +5,18 @@ import json, subprocess, sys
 
 CLAIMED = {
  # id: (technique, level text, level note, design ref)
+ "C01": ("crash-point enumeration: every prefix of the recorded I/O trace (plus every subset of a flush-all run and torn variants of the last write) of every short transaction history, each image recovered by the real start-up path",
+         "Every history of 1-2 (thorough 1-3) explicit transactions x 1-2 statements, all statement-granularity interleavings, commits/aborts/conflict aborts/forced checkpoints, over 4-6 seeds and 2 pool sizes is executed on the real engine under an I/O recorder; for EVERY crash point the image is rebuilt, recovered by NewSamehadaDB, scanned (heap and index path), probed with a new insert, and compared with the admissible committed states of a row model.",
+         "crash = prefix of the DiskManager call sequence (log writes synced, page writes in issue order, any subset of a flush-all run), last write optionally torn; seeds are outside the quantifier; torn heap-page writes are a listed known finding", "§4 C01"),
+ "C02": ("the same crash-point enumeration as C01, verdict on the upper bound of the admissible set (nothing of a loser visible, commit-in-progress atomic)",
+         "Same exhaustive exploration as C01 (all crash points from the first I/O event after the seed, including points inside statements, commit, abort, eviction and checkpoint); a recovered table must equal the committed model state before or after the commit in progress; differences are attributed to C02 when they are effects of a transaction that had not committed.",
+         "as C01", "§4 C02"),
+ "C09": ("explicit-state search over DDL/DML/clean-restart histories on the real database, differential battery before/after each restart",
+         "Every history up to the depth bound of CREATE TABLE, inserts (incl. multi-page growth), in-place/key-changing/relocating updates, deletes and Shutdown()+reopen cycles is run on the real engine (pool 32 KB and 128 KB, 3 seeds); a battery of full scan, every point key and every range through index path and scan path must give identical answers immediately before shutdown and after reopen; later statements are compared with a row model.",
+         "auto-commit statements, skip-list indexes (SQL DDL); failures that reproduce without the restart are not attributed to C09", "§4 C09"),
+ "C10": ("explicit-state search over CREATE TABLE/DML/clean-and-crash-restart histories on the real database against a catalogue+row model",
+         "Every history up to the depth bound over 3 table schemas (arity 1-3, INT/FLOAT/VARCHAR) created in any order, DML on any table, clean and crash restarts (2, thorough 3) is run on the real engine; after every step following a restart each table must be reachable by name with its schema and its own rows, table ids and first pages pairwise distinct, no phantom tables.",
+         "crash restart = process death at a statement boundary (in-statement crash points are C01/C02); pool 128 KB", "§4 C10"),
  "C13": ("explicit-state search over all new/fetch/write/unpin/flush/deallocate sequences on the real BufferPoolManager (pool sizes 1-3, in-memory and file disk manager, 2 users), merged on the pool's private state",
          "Every operation sequence up to the depth bound is executed on the real buffer pool; after every call the page table, frames, pin counts, resident bytes and on-disk bytes (read back through the disk manager) are compared with a map model page->latest bytes: fetch returns the latest bytes, pinned pages keep their frame, frames are never shared, new ids are never live ids.",
          "API contract restrictions listed in the evidence file (creator initialises and unpins dirty; deallocation only in the two call patterns the code base uses); single-threaded; depth bound", "§4 C13"),
